@@ -241,7 +241,8 @@ def run(tier: str) -> Run:
     r2.check(text.isascii(), 'non-ASCII strings held in variables (loop columns, scalar variables) are escaped', where_of(repo, MOD, '_format_value', 'save_cif'),
              {'written': text}, key='ascii-variables')
     bad = []
-    for c in ['x', '_tag value', 'a\n_tag value', 'a\r_tag v', 'loop_\n_a\n1', '; text\n;', 'data_x', 'a\x0b_t v', '\n_t v']:
+    long_line = 'measured on the cold neutron time-of-flight spectrometer ' * 2 + '_tag value ; loop_ data_x'  # > 80 columns
+    for c in ['x', '_tag value', 'a\n_tag value', 'a\r_tag v', 'loop_\n_a\n1', '; text\n;', 'data_x', 'a\x0b_t v', '\n_t v', long_line, 'short\n' + long_line]:
         text = write_chunk({'k': 'v'}, comment=c)
         try:
             got = cif11.parse_pairs(text)
